@@ -12,7 +12,8 @@ DECIDED = ("on the MIR of one generated instantiation per fake! arm that has `ti
            "reachable only on the `when`-true edge, the false edge diverges without touching the counter; R6.4 the verifier returned with "
            "the fake holds the same static and the same budget; R6.5 (library) the verifier's destructor compares load(counter) != expected, "
            "panics only when not already unwinding, and the message carries both numbers; R6.6 will_execute stores the verifier in the "
-           "injector before installing; R6.7 the counter is reset on the way into the installation, so N refers to this installation's calls")
+           "injector before installing; R6.7 the counter is reset on the way into the installation, so N refers to this installation's calls; "
+           "R6.8 the verdict at scope exit reads the counter before the injector lock is released (verifier field dropped before the MutexGuard field)")
 NOT_DECIDED = "atomicity is trusted to std::sync::atomic; the number of calls a given program makes"
 
 
@@ -135,8 +136,10 @@ def run(ck, models, tier, ws):
                       "verifier pushes on this path: %d (before the first effect: %s)" % (len(pv), ok), where(pv[0]) if pv else None)
     ck.floor("R6.6", "paths-storing-the-verifier", nst, 1)
     # R6.7 the count an installation is judged on starts at zero (shared with C07 R7.1)
-    from .c07 import install_resets_counter
+    from .c07 import install_resets_counter, verdict_under_lock
     install_resets_counter(ck, tm, "R6.7")
+    # R6.8 ... and is read for the verdict while the injector lock is still held (shared with C07 R7.3)
+    verdict_under_lock(ck, tm, "R6.8")
 
 
 def hm_times():
